@@ -165,6 +165,14 @@ impl<'a> Tokenizer<'a> {
     }
 }
 
+#[cfg(feature = "verif")]
+impl<'a> Tokenizer<'a> {
+    /// Current byte offset into the input, for the exported token stream
+    pub(crate) fn verif_offset(&self) -> usize {
+        self.pos
+    }
+}
+
 impl<'a> From<&'a str> for Token<'a> {
     #[inline]
     fn from(value: &'a str) -> Self {
